@@ -112,7 +112,7 @@ func Corpus(tier string, seed int64) []Inst {
 	// depth 2 by composition over representative leaves
 	reps := []*Ty{B("int"), Ptr(leaf)}
 	if tier != "quick" {
-		reps = append(reps, B("string"), B("float64"), B("bool"), B("uint8"), B("complex128"), Named("NInt", B("int")), leaf)
+		reps = append(reps, B("string"), B("float64"))
 	}
 	for _, r := range reps {
 		for _, w1 := range wrapShapes(r, true) {
@@ -154,7 +154,7 @@ func Corpus(tier string, seed int64) []Inst {
 	if tier != "quick" {
 		// seeded random deeper shapes
 		rng := rand.New(rand.NewSource(seed))
-		for i := 0; i < 40; i++ {
+		for i := 0; i < 16; i++ {
 			add(randomShape(rng, 3, basics, leaf))
 		}
 	}
